@@ -177,6 +177,36 @@ func c01Scenarios() []*GbnScenario {
 		}
 		scs = append(scs, sc)
 	}
+	// chunked messages (WithMaxSendSize), including empty and one-byte ones, under the same faults
+	crng := newRand(102)
+	for i := 0; i < pick(200, 2000); i++ {
+		n := []uint8{1, 2, 5, 20}[crng.Intn(4)]
+		mc := []int{1, 2, 3, 7}[crng.Intn(4)]
+		sizes := func(m int) []int {
+			l := make([]int, m)
+			for i := range l {
+				l[i] = []int{0, 1, mc - 1, mc, mc + 1, 2 * mc, 2*mc + 1, 2 + crng.Intn(20)}[crng.Intn(8)]
+				if l[i] < 0 {
+					l[i] = 0
+				}
+			}
+			return l
+		}
+		sc := &GbnScenario{
+			Name: fmt.Sprintf("chunked-%d", i), N: n, MaxChunk: mc,
+			Msgs:    [2][]int{sizes(3 + crng.Intn(12)), sizes(crng.Intn(6))},
+			Faults:  [2][]Fault{cleanHS(0, nil), cleanHS(1, nil)},
+			Latency: time.Duration(1+crng.Intn(100)) * time.Millisecond,
+			RandFault: &RandFault{DropPct: crng.Intn(25), DupPct: crng.Intn(15), DelayPct: crng.Intn(20),
+				MaxDelay: time.Duration(crng.Intn(1500)) * time.Millisecond, Until: 40 * time.Second},
+			RunFor: 400 * time.Second, Seed: int64(50000 + i), Static: time.Second,
+		}
+		if i%4 == 0 {
+			sc.RandFault = nil
+			sc.RunFor = 200 * time.Second
+		}
+		scs = append(scs, sc)
+	}
 	return scs
 }
 
@@ -210,6 +240,15 @@ func TestC01(t *testing.T) {
 		r.Case(sc.Name, faults > 0, fmt.Sprintf("n=%d/faulty=%v", sc.N, faults > 0))
 		if ok, why := prefixOracle(res); !ok {
 			r.Violate("C01/recv-not-prefix-of-send", why, sc)
+		}
+		// on a transport that never faulted every accepted message has arrived by the end of the run
+		if faults == 0 && sc.RandFault == nil {
+			for ep := 0; ep < 2; ep++ {
+				if len(res.Recvd[ep]) != len(res.Sent[1-ep]) {
+					r.Violate("C01/message-lost-without-faults", fmt.Sprintf("fault-free transport: endpoint %d received %d of the %d messages its peer's Send accepted",
+						ep, len(res.Recvd[ep]), len(res.Sent[1-ep])), sc)
+				}
+			}
 		}
 		if traces == 1 {
 			r.Sample(map[string]interface{}{"scenario": sc, "first_lines": ops[:min(len(ops), 12)]})
